@@ -87,6 +87,10 @@ type Catalog struct {
 	Opts   []Opts            `json:"opts"`   // option records a container may start with
 	Fns    map[string]*Fn    `json:"fns"`
 	Note   string            `json:"note,omitempty"`
+	// Order, if not empty, fixes the order in which the functions it lists are offered to
+	// Provide / Decorate, and delays Invokes until all of them were (large catalogs whose
+	// registration interleavings cannot be exhausted)
+	Order []string `json:"order,omitempty"`
 }
 
 // NestedInvs is the set of functions that are only invoked from inside other user functions.
@@ -195,7 +199,7 @@ func (c *Catalog) TLA() string {
 		}
 		fmt.Fprintf(&b, "%s |-> %s", s, q(c.Parent[s]))
 	}
-	b.WriteString("], opts |-> <<")
+	b.WriteString("], order |-> " + tlaStrSeq(c.Order) + ", opts |-> <<")
 	for i, o := range c.Opts {
 		if i > 0 {
 			b.WriteString(", ")
